@@ -14,12 +14,13 @@ CLAUSE = {1: "failed-op-had-effect", 2: "exception-class-changed", 3: "deciding-
           7: "registrations-differ-from-twin", 8: "unmodelled-values-differ-from-twin"}
 CORR = {1: "outcome", 2: "state", 3: "handler-log", 4: "fired", 5: "twin-state", 6: "registrations"}
 EXNS = ["TraitError", "ValueError", "AttributeError", "RuntimeError"]
-OPAQUE = ["ObsRemove", "ObsAdd", "AddZ", "SetZ", "SetAdE", "SetW", "SetPW"]      # operations outside the Gallina model (law only)
+OPAQUE = ["SetW", "SetPW"]      # operations outside the Gallina model (law only)
 
 
 def st_term(s):
     return C("mkSt", s["x"], (s["t"][0], s["t"][1]), list(s["l"]), [(k, v) for k, v in s["d"]], list(s["s"]),
-             opt(s["f"]), opt(s["m"]), s["p"], opt(s["c"]), s["ad"], opt(s["y"]), s["ad2"])
+             opt(s["f"]), opt(s["m"]), s["p"], opt(s["c"]), s["ad"], opt(s["y"]), s["ad2"],
+             Nat(s["oreg"]), list(s["zz"]), s["ade"])
 
 
 def obs_term(o):
@@ -50,6 +51,12 @@ def op_term(op, echo, before):
         return C(k, op[1])
     if k in OPAQUE:
         return C("Opaque", Nat(OPAQUE.index(k)))
+    if k in ("ObsAdd", "ObsRemove", "AddZ"):
+        return C(k)
+    if k == "SetZ":
+        return C(k, Nat(op[1] or 0), op[2])
+    if k == "SetAdE":
+        return C(k, Nat(op[1]), op[2])
     if k in ("SetT", "DSetItem", "DSetDefault"):
         return C(k, op[1], op[2])
     if k in ("LAssign", "LExtend", "LIadd", "SUpdate"):
@@ -86,7 +93,7 @@ def to_term(case, obs):
         h.append((op_term(op, st["echo"], before), plan_term(plan), bool(st["fired"]), obs_term(st["A"]),
                   obs_term(st["T"])))
         before = st["A"]["st"]
-    return (st_term(obs["init"]), obs["reg0"], h)
+    return (st_term(obs["init"]), obs["reg0"], (Nat(obs["fc"][0]), Nat(obs["fc"][1])), h)
 
 
 def _plan_tag(plan):
@@ -122,7 +129,7 @@ def ncalls(op):
     if k in ("SetW", "SetPW"):
         return 0
     if k in ("ObsRemove", "ObsAdd"):
-        return 24          # the user filter is called once per trait of the object (about 20)
+        return 40          # the user filter is called about twice per trait of the object
     if k in ("AddZ", "SetZ"):
         return 0
     if k == "SetY":
@@ -252,7 +259,7 @@ def systematic():
     cs = []
     for tpl in TEMPLATES:
         n = ncalls(tpl)
-        ks = range(n + 1) if n <= 8 else [0, 1, 2, 5, 11, 17, 21, 22, 23, n]
+        ks = range(n + 1) if n <= 8 else [0, 1, 2, 9, 19, 30, 36, 37, 38, 39, n]
         for k in ks:
             for e in EXNS:
                 cs.append(dict(ops=[[tpl, ["call", k, e]]] + [[f, None] for f in FOLLOW]))
